@@ -130,7 +130,9 @@ def merge_table(it, lp, inst, op_key, final=None):
             asm = {
                 ('fcmp', 'lt', ae, be): c == 'Less', ('fcmp', 'gt', ae, be): c == 'Greater', ('fcmp', 'eq', ae, be): c == 'Equal',
                 ('fcmp', 'gt', be, ae): c == 'Less', ('fcmp', 'lt', be, ae): c == 'Greater', ('fcmp', 'eq', be, ae): c == 'Equal',
-                ('unord', ae, be): False,
+                ('unord', ae, be): False, ('unord', be, ae): False,
+                ('fcmp', 'le', ae, be): c != 'Greater', ('fcmp', 'ge', ae, be): c != 'Less', ('fcmp', 'ne', ae, be): c != 'Equal',
+                ('fcmp', 'ge', be, ae): c != 'Greater', ('fcmp', 'le', be, ae): c != 'Less', ('fcmp', 'ne', be, ae): c != 'Equal',
             }
             # integer tests are decided from what the row says about the cursors: 0 ≤ i ≤ i_max (C16 proves the indexing; a
             # debug_assert may restate it), a_last ⇔ i = i_max, and the same for j — however the test is spelled
